@@ -670,7 +670,7 @@ def work_errors(unit, res, cap):
             if all_positions:
                 gaps = list(range(n + 1))
             else:
-                gaps = sorted({0, min(3, n), max(kk - 1, 0), kk, min(kk + 1, n), n})
+                gaps = sorted({0, max(kk - 1, 0), kk, min(kk + 1, n), n})
             if len(res.samples) < 1:
                 res.samples.append({'mode': 'errors', 'source': label, 'broken_text': B[:300], 'reported': ob[1][:160]})
             cases = []
@@ -837,7 +837,7 @@ def params(tier):
         return dict(w_gen=3, w_fix=3, fix_tokens_single=11000, fix_tokens_global=10 ** 9, rot=True,
                     pairs=True, error_hosts=None, error_all_positions=True, w_comments=2)
     return dict(w_gen=2, w_fix=2, fix_tokens_single=1300, fix_tokens_global=11000, rot=True,
-                pairs=False, error_hosts=None, error_all_positions=False, w_comments=1)
+                pairs=False, error_hosts=2, error_all_positions=False, w_comments=1)
 
 
 def bounds(tier):
@@ -856,14 +856,14 @@ def bounds(tier):
         'errors': 'every token deleted / replaced by "?" on %s host modules; relayout at %s x every letter, plus every '
                   'boundary before the error' % ('all' if p['error_hosts'] is None else p['error_hosts'],
                                                  'every boundary' if p['error_all_positions'] else
-                                                 'the boundaries {first, after header, 2 before, before, after the error, last}'),
+                                                 'the boundaries {first, 2 before, before, after the error, last}'),
         'cstring_variants': CSTRING_VARIANTS,
     }
 
 
 def error_hosts():
     out = []
-    for i, lines in enumerate(ERROR_HOST_LINES):
+    for i, lines in enumerate(ERROR_HOST_LINES[:1] + ERROR_HOST_LINES[2:3] + ERROR_HOST_LINES[1:2] + ERROR_HOST_LINES[3:]):
         out.append(('errhost%d' % i, T.mini(ERROR_HEADERS[i % len(ERROR_HEADERS)], lines)))
     return out
 
@@ -989,9 +989,34 @@ def units(tier):
     only = os.environ.get('C14_ONLY')       # development aid: run some unit kinds only
     if only:
         out = [u for u in out if u[0] in only.split(',')]
+    every = int(os.environ.get('C14_EVERY', '1'))
+    if every > 1:
+        out = out[::every]
     # big units first so that the tail of the run is short
     out.sort(key=lambda u: 0 if (u[0] == 'global' and u[2][0] == 'file') else 1)
     return out
+
+
+def attribute(failures):
+    """Root-cause grouping.  A failure of a single insertion is keyed by its boundary context; when one letter
+    fails at many contexts that are fine with plain white-space the cause is the letter (the comment scanner), and
+    those failures are regrouped under the letter.  Returns the number of failures regrouped."""
+    ws_bad = set()
+    for f in failures:
+        if f.get('mode') == 'single' and letter_class(f.get('letter', '')) == 'ws':
+            ws_bad.add((f.get('left'), f.get('right')))
+    by_letter = {}
+    for f in failures:
+        if f.get('mode') in ('single', 'pairs', 'comments') and (f.get('left'), f.get('right')) not in ws_bad:
+            by_letter.setdefault((f['mode'], f['kind'], f['letter']), set()).add((f.get('left'), f.get('right')))
+    n = 0
+    for f in failures:
+        k = (f.get('mode'), f.get('kind'), f.get('letter'))
+        if k in by_letter and len(by_letter[k]) >= 5 and (f.get('left'), f.get('right')) not in ws_bad:
+            f['sig'] = '%s|%s|any-context|%s' % k
+            f['contexts_failing_with_this_letter'] = len(by_letter[k])
+            n += 1
+    return n
 
 
 def coverage(stats, tier):
